@@ -68,14 +68,18 @@ def _tags_chunk(args):
     for n, r in enumerate(lines):
         line = uncp(r["line"])
         exp = ("ok", [(c["col"], uncp(c["text"])) for c in r["items"]]) if r["ok"] else ("fault", r["col"])
+        dev = ("ok", [(c["col"], uncp(c["text"])) for c in r["iitems"]]) if r["iok"] else ("fault", r["icol"])     # the recorded deviation
         try:
             got = ("ok", [(c["column"], c["text"]) for c in GherkinLine(line, 1).tags])
         except ParserException as e:
             got = ("fault", e.location.get("column"))
+        except Exception as e:  # noqa: BLE001
+            got = ("exception", type(e).__name__)
         if exp != got:
             import re
-            cause = "tag-blank-after-at" if exp[0] == "fault" and re.search(r"@\s+[^\s@#]", re.split(r"\s#", line.strip())[0]) else "tags"
-            bad.append(dict(line=line, spec=exp, impl=got, via="GherkinLine.tags", cause=cause))
+            in_class = bool(re.search(r"@\s+[^\s@#]", re.split(r"\s#", line.strip())[0]))
+            cause = "tag-blank-after-at" if in_class and got == dev else "tags"      # on inputs of the class anything but the recorded deviation is new
+            bad.append(dict(line=line, spec=exp, impl=got, recorded_deviation=dev, via="GherkinLine.tags", cause=cause))
             continue
         if embed_every and n % embed_every == 0:
             doc = "Feature:\n" + line + "\n Scenario:\n"
